@@ -4,6 +4,7 @@
 package world
 
 import (
+	"os"
 	"unsafe"
 	"context"
 	"fmt"
@@ -528,6 +529,9 @@ func (w *World) ConnectClientVia(pi *ProxyInst, version primitive.ProtocolVersio
 	return c
 }
 
+// traceOn (SIM_TRACE): every scheduler decision goes to stderr (debugging aid, not part of the log hash).
+var traceOn = os.Getenv("SIM_TRACE") != ""
+
 // ---------------------------------------------------------------- the scheduler loop
 
 type actKind int
@@ -648,7 +652,12 @@ func (w *World) StepOnce(maxIdle time.Duration) bool {
 		wt[actClock] = w.Cfg.WClock
 	}
 	if !any {
-		return w.S.Idle(maxIdle)
+		t0 := w.Now()
+		r := w.S.Idle(maxIdle)
+		if d := w.Now() - t0; d > 0 {
+			w.Logf("clock +%v (idle, limit %v)", d, maxIdle)
+		}
+		return r
 	}
 	switch actKind(w.C.Weighted("cat", wt)) {
 	case actTask:
@@ -675,6 +684,9 @@ func (w *World) StepOnce(maxIdle time.Duration) bool {
 		} else {
 			t = tasks[w.C.Choose("task", len(tasks))]
 		}
+		if traceOn {
+			fmt.Fprintf(os.Stderr, "TRACE %d task %s op=%s (of %d)\n", w.S.Steps, t, t.OpLabel(), len(tasks))
+		}
 		w.noteSwitch(t)
 		w.lastTask = t
 		w.spinCheck(t)
@@ -685,6 +697,13 @@ func (w *World) StepOnce(maxIdle time.Duration) bool {
 		w.S.Settle()
 	case actNet:
 		a := nets[w.C.Choose("net", len(nets))]
+		if traceOn {
+			if a.dial != nil {
+				fmt.Fprintf(os.Stderr, "TRACE %d net dial (of %d)\n", w.S.Steps, len(nets))
+			} else {
+				fmt.Fprintf(os.Stderr, "TRACE %d net link#%d %s toSUT=%v pending=%d/%d (of %d)\n", w.S.Steps, a.l.ID, a.l.Tag, a.toSUT, a.l.PendingToSUT(), a.l.PendingToPeer(), len(nets))
+			}
+		}
 		if a.dial != nil {
 			w.resolveDial(a.dial)
 		} else if a.toSUT {
